@@ -12,6 +12,7 @@ mod cases_bitvec;
 mod cases_bfv;
 mod cases_rank;
 mod cases_lenders;
+mod cases_vfilter;
 mod cases_ef;
 mod cases_rcl;
 mod cases_atomic;
@@ -85,6 +86,7 @@ fn dispatch(case: &str, ctx: &mut Ctx, one: Option<&str>, rng: &mut Rng, budget:
         "ef_seq" | "ef_dict" | "ef_builder" => cases_ef::run(case, ctx, one, rng, budget),
         "atomic" => cases_atomic::run(case, ctx, one, rng, budget),
         "rcl" => cases_rcl::run(case, ctx, one, rng, budget),
+        "vfilter" => cases_vfilter::run(case, ctx, one, rng, budget),
         "lenders" | "lenders_take" => cases_lenders::run(case, ctx, one, rng, budget),
         "rank9" | "rank_all" => cases_rank::run(case, ctx, one, rng, budget),
         "bfv_ops" | "bfv_copy" | "bfv_unaligned" | "bfv_apply" => cases_bfv::run(case, ctx, one, rng, budget),
